@@ -104,6 +104,15 @@ where
         take_log();
         let second = describe(&res2, &solver, cutoff.polls.load(SeqCst), cutoff.dog.load(SeqCst), true);
         ret["second"] = second;
+        // ... and a third time once the criterion has stopped asking to stop (a renewed budget): whatever the solver makes of that
+        // call -- give up at once, or go on searching -- what it reports must be sound, and exact only if optimal
+        if res2.is_ok() {
+            cutoff.released.store(true, SeqCst);
+            cutoff.polls.store(0, SeqCst);
+            let res3 = std::panic::catch_unwind(std::panic::AssertUnwindSafe(|| solver.maximize()));
+            take_log();
+            ret["third"] = describe(&res3, &solver, cutoff.polls.load(SeqCst), cutoff.dog.load(SeqCst), true);
+        }
     }
     (evs, ret)
 }
@@ -154,9 +163,13 @@ impl Out<'_> {
         }
         let mut ret = ret;
         let second = ret.as_object_mut().unwrap().remove("second");
+        let third = ret.as_object_mut().unwrap().remove("third");
         writeln!(self.w, "{}", ret).unwrap();
         if let Some(s2) = second {
             writeln!(self.w, "{}", s2).unwrap();
+        }
+        if let Some(s3) = third {
+            writeln!(self.w, "{}", s3).unwrap();
         }
         self.run += 1;
     }
@@ -215,7 +228,8 @@ fn main() {
                 swept += 1;
                 let val = if ret["has_value"].as_bool().unwrap() { Some(ret["best_value"].as_i64().unwrap()) } else { None };
                 let bad = ret["panicked"].as_bool().unwrap() || ret["watchdog"].as_bool().unwrap() || !ret["is_exact"].as_bool().unwrap() || val != m2.opt().map(|o| o as i64)
-                    || !m2.solution_consistent(&ret);
+                    || !m2.solution_consistent(&ret)
+                    || (ret["has_value"].as_bool().unwrap() && ret["best_ub"] != ret["best_value"]);
                 if bad {
                     suspects += 1;
                     let id2 = 1_000_000 + inst_id * sweep + j;
